@@ -282,10 +282,21 @@ def r10_6(ctx):
     if ok:
         l = loops[0]
         it = l.iter
-        ok = is_call_to(it, "zip") and [Norm(None).key(a) for a in it.args] == ["self.initial_keys", Norm(None).key(ast.parse("res[n_constr+1:]", mode="eval").body), "self.initial_values"]
-        tv = [e.id for e in l.target.elts]
+        # zip(.., <resolved keys> = res[len(constraints)+1:], self.initial_values): the columns are recognised by what they iterate over
+        ng_ = ctx.norm(g)
+        kv = vv = None
+        ok = is_call_to(it, "zip") and isinstance(l.target, ast.Tuple) and len(l.target.elts) == len(it.args) and all(isinstance(e, ast.Name) for e in l.target.elts)
+        if ok:
+            for e, a in zip(l.target.elts, it.args):
+                if ast.unparse(a) == "self.initial_values":
+                    vv = e.id
+                elif isinstance(a, ast.Subscript) and isinstance(a.slice, ast.Slice) and a.slice.upper is None and a.slice.step is None and a.slice.lower is not None and isinstance(a.value, ast.Name) \
+                        and is_call_to(scg.reaching(a.value.id, a.value), "placeholders") and ng_.poly(a.slice.lower) == expected("len(self.constraints)+1"):
+                    kv = e.id
+                elif ast.unparse(a) != "self.initial_keys":
+                    ok = False
         sets = [c for c in ast.walk(l) if isinstance(c, ast.Call) and ast.unparse(c.func) == "Opti.set_initial"]
-        ok = ok and len(sets) == 1 and [ast.unparse(a) for a in sets[0].args[1:]] == [tv[1], tv[2]] and not scg.guards(l)
+        ok = ok and kv is not None and vv is not None and len(sets) == 1 and [ast.unparse(a) for a in sets[0].args[1:]] == [kv, vv] and not scg.guards(l)
     ctx.check(ok, "every deferred guess is applied to its resolved key", detail="deferred guesses dropped or mis-paired", expected="for _, k, v in zip(initial_keys, res[n_constr+1:], initial_values): Opti.set_initial(self, k, v)", found="", fi=g)
     init = P.own_method("OptiWrapper", "__init__")
     asg = {ast.unparse(st.targets[0]): ast.unparse(st.value) for st in walk_no_nested(init.node) if isinstance(st, ast.Assign)}
